@@ -15,6 +15,9 @@ THEOREMS = [
     "Cares.C16.csv_fixpoint",
     "Cares.C16.servers_invariant",
     "Cares.C16.dup_equiv",
+    "Cares.C16.entry_roundtrip_v4",
+    "Cares.C16.csv_fixpoint_v4",
+    "Cares.C16.dup_equiv_v4",
     "Cares.C16.ntop_pton_v4",
     "Cares.C16.ntop_pton_v6_examples",
     "Cares.C16.pinned_usevc_overrides_user_flags",
@@ -422,7 +425,8 @@ LEVEL_TEXT = ("Proof (partial where stated): Lean 4 theorems over all option mas
               "at init (user_wins_init) and at every reinit (user_wins_reinit). save_init_fixpoint: options saved from a channel returned by "
               "ares_init_options and used to initialise a new one give exactly the same channel (all fields incl. servers). csv_fixpoint: "
               "getCsv(setCsv(getCsv ch)) = getCsv ch for every server list ares_servers_update can produce, under the decidable per-entry "
-              "hypothesis entryOk (rendering + parsing one entry gives it back; false exactly for the open findings F37/F39-C16). dup_equiv: "
+              "hypothesis entryOk (rendering + parsing one entry gives it back; false exactly for the open findings F37/F39-C16), which is "
+              "itself proved for every IPv4 server with equal ports (entry_roundtrip_v4, csv_fixpoint_v4, dup_equiv_v4). dup_equiv: "
               "ares_dup of a freshly initialised channel gives the same channel, servers travelling through the CSV step (same hypothesis). "
               "ntop_pton: proved for all IPv4 addresses, kernel-checked instances for IPv6 (general IPv6 statement not proved). Not proved: "
               "dup_equiv for channels whose servers were replaced by the CSV/port setters after initialisation, and entryOk itself in "
